@@ -31,6 +31,11 @@ pub trait ShapesRef {
     fn res_io(&self, x: i32) -> Result<u64, std::io::Error>;
     fn res_drop(&self, x: i32) -> Result<Droppy, ()>;
     fn ext(&self, x: i64) -> i64;
+    /// default bodies (overridden by the implementor, with and without explicit lifetime generics) and one that is NOT overridden
+    fn dflt<'a>(&'a self, x: &'a u32) -> &'a u32 { x }
+    fn dflt2(&self, _x: i64) -> i64 { -1 }
+    fn dflt3(&self) -> i64 { self.ext(5) + 1 }
+    fn dflt4<'a>(&'a self, s: &'a str) -> usize { s.len() + 1000 }
 }
 
 #[cglue_trait]
@@ -70,6 +75,9 @@ impl ShapesRef for Obj {
     fn res_io(&self, x: i32) -> Result<u64, std::io::Error> { log_call(vec![self.id, 19, x as i64]); if x == 0 { Ok(99) } else if x == 1 { Err(std::io::Error::new(std::io::ErrorKind::Other, "no code")) } else { Err(std::io::Error::from_raw_os_error(x)) } }
     fn res_drop(&self, x: i32) -> Result<Droppy, ()> { log_call(vec![self.id, 20, x as i64]); if x >= 0 { Ok(Droppy::new(x as i64)) } else { Err(()) } }
     fn ext(&self, x: i64) -> i64 { log_call(vec![self.id, 21, x]); x }
+    fn dflt<'a>(&'a self, x: &'a u32) -> &'a u32 { log_call(vec![self.id, 22, *x as i64]); if *x % 2 == 0 { x } else { &self.cell } }
+    fn dflt2(&self, x: i64) -> i64 { log_call(vec![self.id, 23, x]); x * 2 }
+    fn dflt4<'a>(&'a self, s: &'a str) -> usize { log_call(vec![self.id, 25, s.len() as i64]); s.len() }
 }
 
 impl ShapesMut for Obj {
@@ -86,6 +94,7 @@ impl ShapesMut for Obj {
 
 /// one call; args come from the op row; returns a canonical result row.  Pointer-valued observations are made relative to the
 /// caller's buffers (offsets), so that direct and opaque runs are comparable.
+#[allow(unused_variables)]
 fn call_ref<T: ShapesRef>(t: &mut T, op: &[i64], scratch: &mut Scratch) -> Vec<i64> {
     let a = |i: usize| op.get(i).copied().unwrap_or(0);
     match op[0] {
@@ -102,6 +111,10 @@ fn call_ref<T: ShapesRef>(t: &mut T, op: &[i64], scratch: &mut Scratch) -> Vec<i
         18 => vec![18, match t.res_c(a(1) as i32) { Ok(v) => v as i64, Err(e) => -(e as i64) }],
         19 => vec![19, match t.res_io(a(1) as i32) { Ok(v) => v as i64, Err(e) => -(e.raw_os_error().filter(|c| *c != 0).unwrap_or(0xffff) as i64) - 1_000_000 /* errors without an OS code are documented to become 0xffff */ }],
         20 => { let r = t.res_drop(a(1) as i32); let row = vec![20, match &r { Ok(d) => d.val(), Err(()) => -1 }]; drop(r); row }
+        22 => { let v = a(1) as u32; let r = t.dflt(&v); vec![22, *r as i64, (r as *const u32 == &v as *const u32) as i64] }
+        23 => vec![23, t.dflt2(a(1))],
+        24 => vec![24, t.dflt3()],
+        25 => { let s = scratch.strings[(a(1) as usize) % scratch.strings.len()].clone(); vec![25, t.dflt4(&s) as i64] }
         _ => vec![21, t.ext(a(1))],
     }
 }
@@ -129,7 +142,7 @@ impl Scratch { fn new() -> Self { Scratch { bytes: (0..24u8).collect(), words: (
 
 fn final_state(o: &Obj) -> Vec<i64> { vec![o.state, digest(&o.buf), digest(o.s.as_bytes()), o.cell as i64] }
 
-fn is_ref_op(op: &[i64]) -> bool { matches!(op[0], 0 | 6 | 7 | 8 | 9 | 10 | 12 | 13 | 14 | 16 | 18 | 19 | 20 | 21) }
+fn is_ref_op(op: &[i64]) -> bool { matches!(op[0], 0 | 6 | 7 | 8 | 9 | 10 | 12 | 13 | 14 | 16 | 18 | 19 | 20 | 21 | 22 | 23 | 24 | 25) }
 
 /// params: [trait: 0 ShapesRef / 1 ShapesMut ; container: 0 Box, 1 &mut, 2 & (ShapesRef only), 3 Box with a CArc context]
 pub fn run(params: &[i64], ops: &Rows, mon: &mut Mon) -> Rows {
